@@ -25,6 +25,8 @@ pub enum Cons {
     /// free placement written straight into FEN text (pawns may stand on back ranks); used when accepted
     Free { wk: u8, bk: u8, pieces: Vec<(u8, u8)>, black: bool, castle: u8, ep: Option<u8>, half: u16, full: u16 },
     Builder(u8, u8, Vec<BOp>),
+    /// FEN text handed to the parser as it is; used when accepted (reachable or not)
+    Text(String),
 }
 
 #[derive(Clone, Debug, Serialize, Deserialize, PartialEq)]
@@ -50,6 +52,8 @@ pub enum Op7 {
     Query,
     Format,
     Perft(u8),
+    /// perft_test(3): three plies of the unchecked make-move path (directed families only)
+    Perft3,
     Search(u16, bool),
     LongSearch(u8),
     TfAdd(u16),
@@ -66,6 +70,7 @@ pub struct Script {
 fn construct(c: &Cons) -> Option<Board> {
     match c {
         Cons::Standard => Some(Board::standard()),
+        Cons::Text(t) => t.parse().ok(),
         Cons::Root(r, half, full) => {
             let mut p = build_root(r)?;
             p.half = (*half).min(9999) as u32;
@@ -269,6 +274,10 @@ fn run_script(s: &Script, st: &mut Stats) -> Result<(), String> {
                     let _ = b.perft_test(1 + (*d % 2) as usize);
                     fams.insert("generate");
                 }
+                Op7::Perft3 => {
+                    let _ = b.perft_test(3);
+                    fams.insert("generate");
+                }
                 Op7::Search(k, positional) => {
                     search(&b, &tf, *k as u64, *positional)?;
                     if *k % 16 == 0 {
@@ -433,10 +442,81 @@ pub fn strategy() -> impl Strategy<Value = Script> {
     prop::collection::vec(op, 1..26).prop_map(|ops| Script { ops })
 }
 
+/// Accepted positions need not be reachable. A systematic family of the combination the move
+/// generator is most likely to reason about with game-play assumptions: an en-passant marker
+/// with a capturer beside the pawn, while the side to move is in check from a piece OTHER than
+/// the pawn that made the double step (a pawn, a knight, a slider at distance two) - in play
+/// the checker after a double step is that pawn or a piece it uncovered. White to move; the
+/// caller also uses the colour mirror.
+pub fn ep_with_foreign_check_family() -> Vec<String> {
+    let mut out = vec![];
+    for f in 0..8i8 {
+        for side in [-1i8, 1] {
+            let Some(cap) = refchess::mk(f + side, 4) else { continue };
+            let pawn = refchess::mk(f, 4).unwrap();
+            let (target, origin) = (refchess::mk(f, 5).unwrap(), refchess::mk(f, 6).unwrap());
+            for k in 0..64u8 {
+                if [cap, pawn, target, origin].contains(&k) {
+                    continue;
+                }
+                let (kf, kr) = (refchess::fl(k), refchess::rk(k));
+                let mut checkers: Vec<(u8, P)> = vec![];
+                for df in [-1i8, 1] {
+                    if let Some(s) = refchess::mk(kf + df, kr + 1) {
+                        checkers.push((s, P::Pawn));
+                    }
+                }
+                for (df, dr) in [(1i8, 2i8), (2, 1), (-1, 2), (-2, 1), (1, -2), (2, -1), (-1, -2), (-2, -1)] {
+                    if let Some(s) = refchess::mk(kf + df, kr + dr) {
+                        checkers.push((s, P::Knight));
+                    }
+                }
+                for (df, dr) in [(0i8, 2i8), (2, 0), (0, -2), (-2, 0)] {
+                    if let Some(s) = refchess::mk(kf + df, kr + dr) {
+                        checkers.push((s, P::Rook));
+                    }
+                }
+                for (df, dr) in [(2i8, 2i8), (2, -2), (-2, 2), (-2, -2)] {
+                    if let Some(s) = refchess::mk(kf + df, kr + dr) {
+                        checkers.push((s, P::Bishop));
+                    }
+                }
+                for (cs, ck) in checkers {
+                    if [cap, pawn, target, origin, k].contains(&cs) || (ck == P::Pawn && (refchess::rk(cs) == 0 || refchess::rk(cs) == 7)) {
+                        continue;
+                    }
+                    let mut p = Pos::empty();
+                    p.sq[k as usize] = Some((C::White, P::King));
+                    p.sq[cap as usize] = Some((C::White, P::Pawn));
+                    p.sq[pawn as usize] = Some((C::Black, P::Pawn));
+                    p.sq[cs as usize] = Some((C::Black, ck));
+                    p.ep = Some(f as u8);
+                    p.full = 1;
+                    // the black king: first corner-ish square that is free, not adjacent to the white
+                    // king and not attacked
+                    for bk in [63u8, 56, 7, 0, 61, 58, 47, 40] {
+                        if p.sq[bk as usize].is_some() || ((refchess::fl(bk) - kf).abs() <= 1 && (refchess::rk(bk) - kr).abs() <= 1) {
+                            continue;
+                        }
+                        let mut q = p.clone();
+                        q.sq[bk as usize] = Some((C::Black, P::King));
+                        if q.unplayable_reasons().is_empty() {
+                            out.push(q.fen());
+                            break;
+                        }
+                    }
+                }
+            }
+        }
+    }
+    out
+}
+
 /// directed boundary families named by the property
 fn directed(ctx: &WorkerCtx) -> Result<(), Fail> {
     let mut st = ctx.stats.borrow_mut();
     let run = |name: &str, s: Script, st: &mut Stats| -> Result<(), Fail> {
+        ctx.about_to_run(&serde_json::to_value(&s).unwrap());
         run_script(&s, st).map_err(|d| Fail { case: serde_json::to_value(&s).unwrap(), detail: format!("{d} [directed: {name}]") })?;
         st.class(&format!("directed: {name}"));
         st.nontrivial(digest(&name));
@@ -477,6 +557,22 @@ fn directed(ctx: &WorkerCtx) -> Result<(), Fail> {
             run("70000 polls on a terminal root", Script { ops: vec![Op7::Construct(Cons::Root(Root::Fen(fen.into()), 0, 1)), Op7::LongSearch(0)] }, &mut st)?;
         }
         run("1.3M polls on a clock-drawn root", Script { ops: vec![Op7::Construct(Cons::Root(Root::Fen("8/8/8/4k3/8/8/8/4K2R w - - 99 80".into()), 0, 0)), Op7::LongSearch(0)] }, &mut st)?;
+    }
+    {
+        // accepted-but-unreachable: en-passant marker + check from a foreign piece (see above)
+        let fam = ep_with_foreign_check_family();
+        let every = ctx.tier.pick(3, 1) as usize;
+        for (i, fen) in fam.iter().enumerate() {
+            if !ctx.mine(i as u64) || (i / ctx.n as usize) % every != (ctx.seed as usize) % every {
+                continue;
+            }
+            for text in [fen.clone(), Pos::from_fen(fen).map(|p| p.mirror().fen()).unwrap_or_default()] {
+                let s = Script { ops: vec![Op7::Construct(Cons::Text(text)), full_iter.clone(), Op7::Perft3, Op7::Search(60, false), Op7::Query] };
+                ctx.about_to_run(&serde_json::to_value(&s).unwrap());
+                run_script(&s, &mut st).map_err(|d| Fail { case: serde_json::to_value(&s).unwrap(), detail: format!("{d} [directed: en-passant marker with a check from another piece (accepted, not reachable)]") })?;
+            }
+            st.class("directed: en-passant marker with a check from another piece (accepted, not reachable)");
+        }
     }
     if ctx.idx == 3 % ctx.n {
         // long reversible shuffle from clock 9990: clocks pass 9999 and keep counting
